@@ -47,17 +47,22 @@ Fixpoint rounds (fuel : nat) (g : list gwnode) : nat :=
   match fuel with O => 0 | S f => match g with [] => 0 | _ => S (rounds f (round g)) end end.
 
 (* the whole loop with the list Group._gateways_to_join: gateways that were exit()ed (by terminate itself or by the user before)
-   and are still to be joined / killed.  joins_pending = the loop also runs while only such gateways are left. *)
-Record gstate := { members : list gwnode; tojoin : list nat; joined : list nat }.
-Definition exiting (g : list gwnode) : list gwnode := filter (fun x => negb (is_via g (gid x))) g.
-Definition tpass (s : gstate) : gstate :=
-  {| members := round (members s); tojoin := []; joined := joined s ++ tojoin s ++ map gid (exiting (members s)) |}.
-Fixpoint terminate_loop (joins_pending : bool) (fuel : nat) (s : gstate) : gstate :=
+   and are still to be joined / killed -- through their via gateway, if they have one.
+   joins_pending = the loop also runs while only such gateways are left;
+   vias_count_tojoin = a gateway through which a still-to-be-joined gateway is routed counts as a via (is not exited yet). *)
+Record tcfg := { joins_pending : bool; vias_count_tojoin : bool }.
+Record gstate := { members : list gwnode; tojoin : list gwnode; joined : list nat }.
+Definition via_pool (c : tcfg) (s : gstate) : list gwnode := if vias_count_tojoin c then members s ++ tojoin s else members s.
+Definition exiting (c : tcfg) (s : gstate) : list gwnode := filter (fun x => negb (is_via (via_pool c s) (gid x))) (members s).
+Definition staying (c : tcfg) (s : gstate) : list gwnode := filter (fun x => is_via (via_pool c s) (gid x)) (members s).
+Definition tpass (c : tcfg) (s : gstate) : gstate :=
+  {| members := staying c s; tojoin := []; joined := joined s ++ map gid (tojoin s) ++ map gid (exiting c s) |}.
+Fixpoint terminate_loop (c : tcfg) (fuel : nat) (s : gstate) : gstate :=
   match fuel with
   | O => s
-  | S f => match members s, (if joins_pending then tojoin s else []) with
+  | S f => match members s, (if joins_pending c then tojoin s else []) with
            | [], [] => s
-           | _, _ => terminate_loop joins_pending f (tpass s)
+           | _, _ => terminate_loop c f (tpass c s)
            end
   end.
 
